@@ -18,7 +18,7 @@ func expectedHits() []string {
 		"top", "top:-a", "top:--min", "top:-n", "top:-o", "top:-g", "fraction", "fraction:-p", "fraction:-c", "fraction:-g",
 		"histogram", "histogram:--auto", "histogram:-o", "most-frequent", "least-frequent", "most-frequent:-b", "most-frequent:-n", "most-frequent:-o",
 		"fill-down", "fill-down:-a", "fill-down:--all", "fill-down:--only-if-absent",
-		"step", "step:-g", "step:-o", "step:ewma-default-d", "step:-f x,y", "merge-fields", "merge-fields:-f", "merge-fields:-r", "merge-fields:-c", "merge-fields:-k", "merge-fields:-i",
+		"step", "step:-g", "step:-o", "step:ewma-default-d", "step:-f x,y", "step:slwin-backward-only", "step:missing-window", "step:missing-window-grouped", "merge-fields", "merge-fields:-f", "merge-fields:-r", "merge-fields:-c", "merge-fields:-k", "merge-fields:-i",
 		"dsl:array", "dsl:map", "group-text:comma", "group-text:1-vs-1.0", "group-text:(empty)", "group-text:(absent)"}
 	l = append(l, "pct-grid:direct", "pct-grid:stats1", "pct-grid:merge-fields", "pct-grid:dsl",
 		"joiner-verb:stats1", "joiner-verb:step", "joiner-verb:fraction", "joiner-verb:top", "joiner-verb:count-distinct -u")
@@ -102,6 +102,8 @@ func valueVerbs(t *T, G []string, in []rec, rich bool) {
 	checkStep(t, stepCfg{steppers: []string{"shift_lead", "slwin_1_1", "rsum", "counter"}, fields: []string{"x"}, groupBy: G}, ided)
 	if rich {
 		checkStep(t, stepCfg{steppers: []string{"shift_lead_2", "slwin_0_2", "shift"}, fields: []string{"x"}, groupBy: G}, ided)
+		// window averages without any look-forward stepper: records lacking x (or g) are outside the known finding
+		checkStep(t, stepCfg{steppers: []string{"slwin_1_0", "slwin_2_0", "shift_lag", "delta"}, fields: []string{"x"}, groupBy: G}, ided)
 	}
 	// numeric-only verbs
 	if numericOnly(in, "x") {
